@@ -1,4 +1,5 @@
 mod extract;
+mod irgen;
 mod ops;
 mod run;
 mod util;
@@ -37,6 +38,7 @@ fn main() {
                 "C11" => run::finish(ops::c11::cases(seed, tier), &driver, &out, seed, tier, ops::c11::RULE, serde_json::json!({})),
                 "C06" => run::finish(ops::c06::cases(seed, tier, false), &driver, &out, seed, tier, ops::c06::RULE_SERVER, serde_json::json!({})),
                 "C18" => run::finish(ops::c06::cases(seed, tier, true), &driver, &out, seed, tier, ops::c06::RULE_CLIENT, serde_json::json!({})),
+                "C08" => run::finish(ops::c08::cases(seed, tier), &driver, &out, seed, tier, ops::c08::RULE, serde_json::json!({})),
                 "C07" => run::finish(ops::c07::cases(seed, tier), &driver, &out, seed, tier, ops::c07::RULE, serde_json::json!({})),
                 _ => Err(format!("unknown property {}", prop)),
             };
